@@ -90,7 +90,9 @@ func checkCorpusFile(which, root, path string) hlib.Result {
 	case "c20":
 		vd = judge20(r)
 		if vd != nil && vd.sig == "not-idempotent" {
-			vd.sig += ":" + diffPlace(r).String() + ":corpus"
+			pl := diffPlace(r)
+			vd.sig += ":" + pl.cause("gap")
+			vd.detail = "place " + pl.String() + "\n" + vd.detail
 		}
 	case "c21":
 		rt, _ := scanAll(src)
@@ -111,7 +113,12 @@ func checkCorpusFile(which, root, path string) hlib.Result {
 					} else if len(t.lit) > 0 && t.lit[0] == '#' {
 						kind = "#"
 					}
-					vd.sig += ":" + placeAt(src, r.in, r.inFset, t.pos, t.end-t.pos).String() + ":" + kind
+					if kind == "#" {
+						kind = "//"
+					}
+					pl := placeAt(src, r.in, r.inFset, t.pos, t.end-t.pos)
+					vd.sig += ":" + pl.cause(kind)
+					vd.detail = "place " + pl.String() + ":" + kind + "\n" + vd.detail
 					break
 				}
 				k++
